@@ -159,16 +159,21 @@ fn check_state_invariants(session: &anda_cognitive_nexus::nexus::Session, reg: &
             }
         }
     }
-    // a logical key names at most one concept per type
-    let o = block(exec(session, r#"FIND(?c.id, ?c.schema_ref, ?c.key) WHERE { ?c CONCEPT {} FILTER(IS_NOT_NULL(?c.key)) }"#, false));
-    if let Some(rows) = o.result.as_array() {
-        let mut seen: BTreeMap<String, String> = BTreeMap::new();
+    // a logical key names at most one concept per type - whatever state its
+    // holder is in (a purged stub keeps no key; a pending shell is no concept)
+    let mut seen: BTreeMap<String, String> = BTreeMap::new();
+    for state in ["active", "archived", "tombstoned", "merged", "quarantined"] {
+        let o = block(exec(session, &format!(r#"FIND(?c.id, ?c.schema_ref, ?c.key) WHERE {{ ?c CONCEPT {{state: "{state}"}} FILTER(IS_NOT_NULL(?c.key)) }}"#), false));
+        let Some(rows) = o.result.as_array() else { continue };
         for r in rows {
+            if r[2].as_str().map(|k| k.is_empty()).unwrap_or(true) {
+                continue;
+            }
             let k = format!("{}|{}", r[1], r[2]);
             let id = r[0].as_str().unwrap_or("").to_string();
             if let Some(prev) = seen.insert(k.clone(), id.clone()) {
                 if prev != id {
-                    return Err(violation!("c17.key-duplicate", "{ctx}: concepts {prev} and {id} share type and key {k}"));
+                    return Err(violation!("c17.key-duplicate", "{ctx}: concepts {prev} and {id} (the latter {state}) share type and key {k}"));
                 }
             }
         }
@@ -228,6 +233,18 @@ pub fn execute(case: &Case, rep: &mut RunReport) -> Result<(), Violation> {
             None => sgen::generate(&mut grng, &reg),
         };
         let before = block(dump(&session, &known(&reg), None));
+        // historical reads are observations too: two committed coordinates
+        let past: Vec<u64> = {
+            let mut v: Vec<u64> = Vec::new();
+            if let Some(l) = committed.last() {
+                v.push(*l);
+            }
+            if committed.len() > 1 {
+                v.push(committed[(i * 7 + 3) % (committed.len() - 1)]);
+            }
+            v
+        };
+        let before_past: Vec<Vec<(String, String)>> = past.iter().map(|s| block(dump(&session, &[], Some(&format!("AS OF SEQ {s}"))))).collect();
         // who sends it is a function of the statement, so shrinking keeps it
         let who = {
             let mut h = Sig::default();
@@ -253,6 +270,14 @@ pub fn execute(case: &Case, rep: &mut RunReport) -> Result<(), Violation> {
             if let Some(d) = diff_dump(&before, &after) {
                 let class = if st.dry_run { "c17.dry-run-changed-state" } else { "c17.refused-statement-left-trace" };
                 return Err(violation!(class, "{ctx}: {d}"));
+            }
+            for (s, b) in past.iter().zip(before_past.iter()) {
+                let a = block(dump(&session, &[], Some(&format!("AS OF SEQ {s}"))));
+                if let Some(d) = diff_dump(b, &a) {
+                    let class = if st.dry_run { "c17.dry-run-changed-history" } else { "c17.refused-statement-changed-history" };
+                    return Err(violation!(class, "{ctx}: read AS OF SEQ {s}: {d}"));
+                }
+                rep.probe("historical_reads_compared_around_refusals", 1);
             }
             if st.dry_run {
                 dry += 1;
@@ -292,7 +317,17 @@ pub fn execute(case: &Case, rep: &mut RunReport) -> Result<(), Violation> {
         if wstmts.iter().all(|w| w.is_empty()) {
             for w in wstmts.iter_mut() {
                 let mut r = Rng::stream(grng.next_u64(), "w");
-                *w = (0..r.range(1, 3)).map(|_| sgen::generate(&mut r, &reg)).collect();
+                // no physical erasure here: the oracle below reads the statement
+                // boundaries back AS OF their sequence, and a purge is the one
+                // thing allowed to change those
+                *w = (0..r.range(1, 3))
+                    .map(|_| loop {
+                        let st = sgen::generate(&mut r, &reg);
+                        if !st.text.contains("PURGE ") {
+                            break st;
+                        }
+                    })
+                    .collect();
             }
         }
         let ids = known(&reg);
